@@ -75,6 +75,9 @@ impl NodeDrive {
         let keys_to_update = get_keys_to_update(db, reclame_space);
         #[cfg(nundb_verif)]
         crate::verif_hooks::record_key_order(keys_to_update.iter().map(|(k, _)| k.clone()).collect());
+        // The metadata goes first: a database whose keys file exists must never load without
+        // its id (a missing or empty metadata file made it load with another database's id)
+        write_metadata_file(db_name, db);
         let mut keys_file = get_key_file_append_mode(&db_name, reclame_space);
         let (mut values_file, current_value_file_size) =
             get_values_file_append_mode(&db_name, reclame_space);
@@ -186,7 +189,6 @@ impl NodeDrive {
         keys_file_write.flush().unwrap();
         values_file.flush().unwrap();
 
-        write_metadata_file(db_name, db);
         log::debug!("snapshoted {} keys", changed_keys);
         changed_keys
     }
@@ -342,12 +344,10 @@ fn write_metadata_file(db_name: &String, db: &Database) {
         .write(true)
         .open(meta_file_name_from_db_name(db_name.to_string()))
         .unwrap();
-    //8 bytes
-    meta_file.write(&db.metadata.id.to_le_bytes()).unwrap();
-    //4 bytes
-    meta_file
-        .write(&db.metadata.consensus_strategy.to_le_bytes())
-        .unwrap();
+    // 8 bytes id + 4 bytes strategy in a single write
+    let mut record = db.metadata.id.to_le_bytes().to_vec();
+    record.extend_from_slice(&db.metadata.consensus_strategy.to_le_bytes());
+    meta_file.write_all(&record).unwrap();
 }
 
 pub fn meta_file_name_from_db_name(db_name: String) -> String {
